@@ -251,6 +251,7 @@ func (vc *VC) atCall(f *Frame, callee string, args []SV, pc string, st *State, p
 			vc.failObl(name, ac.Clause, err)
 			continue
 		}
+		vc.eng.acApplied[fmt.Sprintf("%s:%d", ac.Clause.File, ac.Clause.Line)] = true
 		vc.addObl(&Obl{Name: name, Kind: "at-call", Labels: ac.Clause.Labels, Pos: vc.eng.fset.Position(pos), PC: pc, Goal: t, Clause: ac.Clause.Text, Tier: ac.Clause.Tier})
 		// a checked assertion is known from here on
 		vc.assume(pc, t)
@@ -426,7 +427,7 @@ func (f *Frame) havocModifies(env *Env, m string, pc string, st *State, pos toke
 		vc.havocIface(st, strings.TrimPrefix(m, "tr."))
 		return
 	case strings.HasPrefix(m, "mon."):
-		if srt, ok := vc.eng.monSorts[m]; ok {
+		if srt, ok := vc.eng.monSorts[m]; ok && vc.monActive(m) {
 			vc.ghostTerm(st, m, srt, "")
 			st.ghost[m] = vc.decl(sanitize(m), srt)
 		}
